@@ -84,11 +84,21 @@ pub fn eval(expr: Node) -> Result<Decimal, Box<dyn error::Error>> {
     use self::Node::*;
     match expr {
         Number(i) => Ok(i),
-        Add(expr1, expr2) => Ok(eval(*expr1)? + eval(*expr2)?),
-        Subtract(expr1, expr2) => Ok(eval(*expr1)? - eval(*expr2)?),
-        Multiply(expr1, expr2) => Ok(eval(*expr1)? * eval(*expr2)?),
-        Divide(expr1, expr2) => Ok(eval(*expr1)? / eval(*expr2)?),
-        Modulo(expr1, expr2) => Ok(eval(*expr1)? % eval(*expr2)?),
+        Add(expr1, expr2) => Ok(eval(*expr1)?
+            .checked_add(eval(*expr2)?)
+            .ok_or("Decimal overflow")?),
+        Subtract(expr1, expr2) => Ok(eval(*expr1)?
+            .checked_sub(eval(*expr2)?)
+            .ok_or("Decimal overflow")?),
+        Multiply(expr1, expr2) => Ok(eval(*expr1)?
+            .checked_mul(eval(*expr2)?)
+            .ok_or("Decimal overflow")?),
+        Divide(expr1, expr2) => Ok(eval(*expr1)?
+            .checked_div(eval(*expr2)?)
+            .ok_or("Division by zero or decimal overflow")?),
+        Modulo(expr1, expr2) => Ok(eval(*expr1)?
+            .checked_rem(eval(*expr2)?)
+            .ok_or("Division by zero or decimal overflow")?),
         Negative(expr1) => Ok(-(eval(*expr1)?)),
         Abs(sub_expr) => Ok(eval(*sub_expr)?.abs()),
         Floor(sub_expr) => Ok(eval(*sub_expr)?.floor()),
@@ -96,12 +106,34 @@ pub fn eval(expr: Node) -> Result<Decimal, Box<dyn error::Error>> {
         Round(sub_expr) => Ok(eval(*sub_expr)?.round()),
         Truncate(sub_expr) => Ok(eval(*sub_expr)?.trunc()),
         Sign(sub_expr) => Ok(eval(*sub_expr)?.signum()),
-        Ln(sub_expr) => Ok(eval(*sub_expr)?.ln()),
-        Lb(sub_expr) => Ok(eval(*sub_expr)?.ln() / Decimal::new(2, 0).ln()),
-        Exp(sub_expr) => Ok(eval(*sub_expr)?.exp()),
-        Exp2(sub_expr) => Ok(Decimal::new(2, 0).powd(eval(*sub_expr)?)),
-        Pow(expr1, expr2) => Ok(eval(*expr1)?.powd(eval(*expr2)?)),
-        Log(expr1, expr2) => Ok(eval(*expr1)?.ln() / eval(*expr2)?.ln()),
+        Ln(sub_expr) => Ok(eval(*sub_expr)?
+            .checked_ln()
+            .ok_or("The logarithm is only defined for positive numbers")?),
+        Lb(sub_expr) => Ok(eval(*sub_expr)?
+            .checked_ln()
+            .ok_or("The logarithm is only defined for positive numbers")?
+            .checked_div(Decimal::new(2, 0).ln())
+            .ok_or("Decimal overflow")?),
+        Exp(sub_expr) => Ok(eval(*sub_expr)?.checked_exp().ok_or("Decimal overflow")?),
+        Exp2(sub_expr) => Ok(Decimal::new(2, 0)
+            .checked_powd(eval(*sub_expr)?)
+            .ok_or("Decimal overflow")?),
+        Pow(expr1, expr2) => Ok(eval(*expr1)?
+            .checked_powd(eval(*expr2)?)
+            .ok_or("Decimal overflow")?),
+        Log(expr1, expr2) => {
+            let x = eval(*expr1)?;
+            let base = eval(*expr2)?;
+            let ln_x = x
+                .checked_ln()
+                .ok_or("The logarithm is only defined for positive numbers")?;
+            let ln_base = base
+                .checked_ln()
+                .ok_or("The logarithm is only defined for positive numbers")?;
+            Ok(ln_x
+                .checked_div(ln_base)
+                .ok_or("Division by zero or decimal overflow")?)
+        }
         Factorial(sub_expr) => {
             let sub_result = eval(*sub_expr)?;
             if sub_result >= Decimal::ZERO {
@@ -109,10 +141,12 @@ pub fn eval(expr: Node) -> Result<Decimal, Box<dyn error::Error>> {
                     Ok(gamma(sub_result + Decimal::new(1, 0)).ok_or("Decimal overflow")?)
                 } else {
                     let mut factorial_result = Decimal::new(1, 0);
-                    for i in 2..=sub_result.to_i64().unwrap() {
+                    for i in 2..=sub_result.to_i64().ok_or("Decimal overflow")? {
                         #[cfg(feature = "verif_hooks")]
                         crate::verif_hooks::tick_loop();
-                        factorial_result *= Decimal::new(i, 0);
+                        factorial_result = factorial_result
+                            .checked_mul(Decimal::new(i, 0))
+                            .ok_or("Decimal overflow")?;
                     }
                     Ok(factorial_result)
                 }
@@ -151,7 +185,11 @@ pub fn eval(expr: Node) -> Result<Decimal, Box<dyn error::Error>> {
                 #[cfg(feature = "verif_hooks")]
                 crate::verif_hooks::tick_loop();
                 x += Decimal::new(1, 0);
-                let next = (n.log10() / b.log10()).floor();
+                let next = n
+                    .checked_log10()
+                    .and_then(|log_n| log_n.checked_div(b.checked_log10()?))
+                    .ok_or("The iterated logarithm is not defined for this base.")?
+                    .floor();
                 if next >= n {
                     return Err("The iterated logarithm does not terminate for this base.".into());
                 }
@@ -163,7 +201,13 @@ pub fn eval(expr: Node) -> Result<Decimal, Box<dyn error::Error>> {
             Some(result) => Ok(result),
             None => Err("Unable to compute the square root of negative number".into()),
         },
-        Root(n_th_expr, x_expr) => Ok(eval(*x_expr)?.powd(Decimal::new(1, 0) / eval(*n_th_expr)?)),
+        Root(n_th_expr, x_expr) => {
+            let x = eval(*x_expr)?;
+            let exponent = Decimal::new(1, 0)
+                .checked_div(eval(*n_th_expr)?)
+                .ok_or("Division by zero")?;
+            Ok(x.checked_powd(exponent).ok_or("Decimal overflow")?)
+        }
         Min(args) => {
             if args.len() > 1 {
                 let mut result = Decimal::MAX;
@@ -195,7 +239,7 @@ pub fn eval(expr: Node) -> Result<Decimal, Box<dyn error::Error>> {
         Avg(args) => {
             let mut result = Decimal::ZERO;
             for arg in <Vec<Node> as Clone>::clone(&args).into_iter() {
-                result += eval(arg)?;
+                result = result.checked_add(eval(arg)?).ok_or("Decimal overflow")?;
             }
             Ok(result / Decimal::new(args.len() as i64, 0))
         }
@@ -207,7 +251,10 @@ pub fn eval(expr: Node) -> Result<Decimal, Box<dyn error::Error>> {
             results.sort_by(|a, b| a.partial_cmp(b).unwrap());
             let len = results.len();
             if len % 2 == 0 {
-                Ok((results[len >> 1] + results[(len >> 1) - 1]) / Decimal::new(2, 0))
+                Ok(results[len >> 1]
+                    .checked_add(results[(len >> 1) - 1])
+                    .ok_or("Decimal overflow")?
+                    / Decimal::new(2, 0))
             } else {
                 Ok(results[len >> 1])
             }
